@@ -28,16 +28,16 @@ Proof.
   - induction x as [|u x IHx]; auto. rewrite IH. exact IHx.
 Qed.
 
-(* C01 bytes: no failure reported <-> the target received the client's bytes, the client the target's, final status OK *)
+(* C01 bytes: no failure reported <-> the target received the client's bytes, the client the target's, and the target's final status *)
 Lemma c01_bytes_exact input impl :
   prop_c01_bytes input impl = None <->
-  nthv 0 impl = nthv 1 input /\ nthv 1 impl = nthv 2 input /\ as_Z (nthv 2 impl) = 0.
+  nthv 0 impl = nthv 1 input /\ nthv 1 impl = nthv 2 input /\ nthv 2 impl = nthv 3 input.
 Proof.
   unfold prop_c01_bytes. split.
   - destruct (val_eqb (nthv 0 impl) (nthv 1 input)) eqn:E1; simpl; try discriminate.
     destruct (val_eqb (nthv 1 impl) (nthv 2 input)) eqn:E2; simpl; try discriminate.
-    destruct (Z.eqb (as_Z (nthv 2 impl)) 0) eqn:E3; simpl; try discriminate.
-    intros _. apply val_eqb_eq in E1, E2. apply Z.eqb_eq in E3. auto.
+    destruct (val_eqb (nthv 2 impl) (nthv 3 input)) eqn:E3; simpl; try discriminate.
+    intros _. apply val_eqb_eq in E1, E2, E3. auto.
   - intros (H1 & H2 & H3). rewrite H1, H2, H3, !val_eqb_refl. reflexivity.
 Qed.
 
